@@ -83,7 +83,9 @@ def run(res, a):
     rng = core.rng_for(ID, res.seed)
     if a.replay:
         rep = json.load(open(a.replay))
-        if rep["case"].split(" ")[0] in ("cwsw", "cwrace"):
+        if rep["case"].startswith("sk "):
+            stalled(res, a, [rep["case"]])
+        elif rep["case"].split(" ")[0] in ("cwsw", "cwrace"):
             extra(res, [{"id": "replay", "line": rep["case"], "kind": rep["case"].split(" ")[0]}])
         else:
             core.run_correspondence(res, FAMILY, [{"id": "replay", "line": rep["case"], "kind": "replay"}], mod)
@@ -96,6 +98,28 @@ def run(res, a):
     for i in range(4 if a.tier == "quick" else 16):
         cases.append({"id": "race%d" % i, "kind": "cwrace", "line": "cwrace %s 4 %d %d" % (rb(rng, 32), 300 if a.tier == "quick" else 3000, 2000 if a.tier == "quick" else 20000)})
     extra(res, cases)
+    stalled(res, a)
+
+
+def stalled(res, a, lines=None):
+    """full stack, implementation side: a subscriber that stops reading for six seconds while the application sets far more
+    than the socket buffers hold (the accessory's event writes block), then reads on"""
+    import os
+    from . import stackcommon as sc
+    if lines is None:
+        lines = ["sk tbl=%s N:p S:p:c0:ok N:c0 V:c0:c0:ok P:c0:4.16:-:1 STALL:c0:6:%d:100000" % (sc.table(), 150)] * (1 if a.tier == "quick" else 2)
+    obs = core.shard_run(os.path.join(core.BUILD, "hcdrv"), "stack", ["stall%d %s" % (i, l) for i, l in enumerate(lines)])
+    bad = 0
+    for i, l in enumerate(lines):
+        o = obs.get("stall%d" % i, "NO-OUTPUT")
+        res.cases += 1
+        res.count("kind:stalled-subscriber")
+        if not o.endswith("STALL=ok"):
+            bad += 1
+            res.violations.append(("stalled", {"property": ID, "family": "stack", "seed": res.seed, "case": l, "implementation_observed": o[-200:],
+                                               "required": "a subscriber that did not read for six seconds while events piled up (the accessory's socket writes blocked) cannot decrypt the stream / misses events afterwards: " + o.split(" ")[-1][6:90].replace("-", " "),
+                                               "failing_input_found": True, "replay": "python3 tools/check.py C08 --replay <this file>"}))
+    res.obligations.append(("implementation-side runs: event writes to a subscriber that stops reading for seconds", bad == 0, "%d runs, %d failing" % (len(lines), bad)))
 
 
 def extra(res, cases):
